@@ -21,6 +21,12 @@ CHECKS = {
    design_ref="DESIGN.md section 6 C12",
    note=COMMON_NOTE + "Hand-modelled: the semantics of mls-rs-codec primitives and of the derive macro (Model/Codec.v) and the hand-written codecs (templates in the translator). Heap use is measured by a counting allocator, not proved. Known finding F7b (hash-map state types re-encode in a different order).",
    technique="Coq proof over generic codec model + translated type table + vm_compute correspondence"),
+ "C13": dict(
+   category="proof",
+   text="Coq theorems (Props/C13.v): the derivations written in the shape of the code (key schedule order, u16-truncated KDFLabel length, PSK loop with running index, on-demand secret tree with node consumption over the translated tree math, ratchet with generation counter) compute exactly the RFC 9420 formulas written from the RFC text - for every hash/KDF (every suite), every input, every tree size up to 2^30 leaves and every order of leaf consumption. Tie: the RFC functions, instantiated with Gallina SHA-256/384/512 + HMAC + HKDF (FIPS known answers checked), are evaluated by vm_compute on the inputs given to the library through the hooks and must give identical bytes (all 12 epoch secrets, welcome secret, PSK chain, exporter, per-generation key and nonce, transcript hashes, confirmation and membership tags) on three providers and seven suites.",
+   design_ref="DESIGN.md section 6 C13",
+   note=COMMON_NOTE + "Hand-modelled: Model/KeyScheduleCode.v (shape of key_schedule.rs, psk/secret.rs, secret_tree.rs) and Model/KeyScheduleRFC.v (RFC text). Gallina SHA-2/HMAC/HKDF are trusted as the reference (validated by known answers).",
+   technique="Coq proof (code-shaped = RFC) + byte-exact vm_compute correspondence with Gallina SHA-2/HKDF"),
 }
 NOT_YET = {}
 props = [json.loads(l) for l in open(os.path.join(V, "properties.jsonl"))]
@@ -54,7 +60,7 @@ m = {
  },
  "engines": [
    {"name": "coq", "path": "/verif/coq", "serves_properties": sorted(CHECKS), "kind_free_text": "Coq 8.16.1 development: Gen (translated), Model, Proofs, Props (pinned theorems)"},
-   {"name": "rs2v", "path": "/verif/translator", "serves_properties": ["C20", "C12"], "kind_free_text": "syn-based Rust to Gallina translator, run on every check"},
+   {"name": "rs2v", "path": "/verif/translator", "serves_properties": ["C20", "C12", "C13"], "kind_free_text": "syn-based Rust to Gallina translator, run on every check"},
    {"name": "mlsh", "path": "/verif/harness", "serves_properties": sorted(CHECKS), "kind_free_text": "Rust harness over the real library (path deps on /repo, --cfg mls_rs_verif)"},
  ],
  "checks": checks,
